@@ -49,10 +49,13 @@ ATOM_CALLS = [
     ("Potential", "via_frozen_phonons_eager", BUILDABLE),
     ("Potential", "via_frozen_phonons_lazy", BUILDABLE),
     ("Potential", "multislice", BUILDABLE),
+    ("Potential", "via_frozen_phonons_zero_sigma_eager", BUILDABLE),
+    ("Potential", "via_frozen_phonons_zero_sigma_lazy", BUILDABLE),
     ("FrozenPhonons", "construct", ALL),
     ("FrozenPhonons", "iterate", ALL),
     ("FrozenPhonons", "dict_sigmas_directions", ALL),
     ("FrozenPhonons", "randomize", ALL),
+    ("FrozenPhonons", "configurations_are_private_copies", ALL),
     ("StructureFactor", "construct", ALL),
     ("StructureFactor", "build", ALL),
     ("StructureFactor", "potential_3d", ALL),
@@ -308,6 +311,10 @@ def _atoms_call(group, variant, a):
             return abtem.Potential(fp, **potkw).build(lazy=True).compute(**sched)
         if variant == "multislice":
             return abtem.PlaneWave(energy=100e3).multislice(abtem.Potential(a, **potkw)).compute(**sched)
+        if variant.startswith("via_frozen_phonons_zero_sigma"):  # vanishing displacements: still a private configuration
+            fp = abtem.FrozenPhonons(a, num_configs=2, sigmas=[0.0, {s_: 0.0 for s_ in syms}][len(syms) % 2], seed=1)
+            pot = abtem.Potential(fp, **potkw)
+            return pot.build(lazy=False) if variant.endswith("eager") else pot.build(lazy=True).compute(**sched)
     if group == "FrozenPhonons":
         if variant == "construct":
             return abtem.FrozenPhonons(a, num_configs=2, sigmas=0.1, seed=1)
@@ -319,6 +326,18 @@ def _atoms_call(group, variant, a):
             return [c for c in fp]
         if variant == "randomize":
             return abtem.FrozenPhonons(a, num_configs=2, sigmas=0.1, seed=1).randomize(a)
+        if variant == "configurations_are_private_copies":
+            # what a caller may do with the configurations it is handed (also with vanishing displacements): edit them
+            outs = []
+            for sig in (0.1, 0.0):
+                fp = abtem.FrozenPhonons(a, num_configs=2, sigmas=sig, seed=1)
+                for cfg in [fp.randomize(a)] + [c for c in fp]:
+                    cfg = cfg.atoms if hasattr(cfg, "atoms") and not hasattr(cfg, "positions") else cfg
+                    if hasattr(cfg, "positions"):
+                        cfg.positions[:] += 0.37
+                        cfg.wrap()
+                    outs.append(cfg)
+            return outs
     if group == "StructureFactor":
         from abtem.bloch import StructureFactor
 
